@@ -1,3 +1,4 @@
+import DcmVerif.Props.Source_filter
 import DcmVerif.Props.C14_flt
 import DcmVerif.Props.C14_key
 import DcmVerif.Props.C14_ext
